@@ -18,13 +18,29 @@ package corr
 // extension payload buffer and fills them in place for every packet it writes (`o.Header(h)`).  It may: an
 // interceptor that keeps a packet beyond Write keeps a copy.  A shallow copy anywhere in the chain then shows up as
 // a retransmission / repair packet that carries a later packet's CSRCs or extension elements.
+// Further options (all of them invisible to a correct interceptor's model):
+//
+//	attrs=1           the caller passes a fresh, non-nil Attributes map to every Read/Write (what pion/webrtc does), so
+//	                  the interceptors of the chain share one packet's parse cache
+//	failrtp=2,3       the calls (1-based) of the bottom RTP writer that return an error; `%4` = every 4th call.  The
+//	failrtcp=1,%5     same for the bottom RTCP writer.  The attempted write is still an observable (the component
+//	                  prints it as usual); a correct interceptor's later behaviour is what it would have been
+//	                  without the failure.
+//	shapes=padonly,plain,pad1,padmax   a cyclic schedule of wire shapes for the RTP packets the component hands to a
+//	                  Read (o.ShapeRaw): the P bit with the padding count in the last octet — the whole payload
+//	                  (padding-only), 1, payload-1 —, at unchanged length.  Interceptors parse the header only;
+//	                  whatever follows it is payload to them.
 //
 // Neighbours must be silent for the component's observables; a component chooses them per class in its generator
 // (never on its malformed-input classes unless the neighbour passes malformed input through unchanged).
 
 import (
+	"errors"
+	"fmt"
 	"io"
+	"reflect"
 	"strings"
+	"sync/atomic"
 
 	"github.com/pion/interceptor"
 	"github.com/pion/interceptor/pkg/nack"
@@ -48,7 +64,50 @@ type Amb struct {
 	hdr           *rtp.Header
 	csrc          []uint32
 	extBuf        []byte
+	FreshAttr     bool     // the caller passes a fresh non-nil Attributes map to every Read/Write
+	FailRTP       ambSched // which calls of the bottom RTP writer fail
+	FailRTCP      ambSched // which calls of the bottom RTCP writer fail
+	Shapes        []string // cyclic schedule of wire shapes for RTP packets handed to a Read
+	nRTP, nRTCP   int64
+	nShape        int64
 }
+
+// ambSched is a set of 1-based call numbers: listed ones and every multiple of the `%k` entries.
+type ambSched struct {
+	at    map[int64]bool
+	every []int64
+}
+
+func parseSched(s string) ambSched {
+	sc := ambSched{at: map[int64]bool{}}
+	if s == "" || s == "-" {
+		return sc
+	}
+	for _, x := range strings.Split(s, ",") {
+		if strings.HasPrefix(x, "%") {
+			if k := atoi(x[1:]); k > 0 {
+				sc.every = append(sc.every, int64(k))
+			}
+			continue
+		}
+		sc.at[int64(atoi(x))] = true
+	}
+	return sc
+}
+
+func (sc ambSched) hit(n int64) bool {
+	if sc.at[n] {
+		return true
+	}
+	for _, k := range sc.every {
+		if n%k == 0 {
+			return true
+		}
+	}
+	return false
+}
+
+var errAmbWrite = errors.New("ambient: the transport refused this write")
 
 func parseAmb(op string) Amb {
 	_, m := kv(op)
@@ -59,7 +118,8 @@ func parseAmb(op string) Amb {
 		return strings.Split(s, ",")
 	}
 	return Amb{Before: split(m["before"]), After: split(m["after"]), Chain: m["chain"] == "1", Reuse: m["reuse"] == "1",
-		NilAttr: m["nilattr"] == "1", FreshInfo: m["freshinfo"] == "1", ReuseHdr: m["reusehdr"] == "1"}
+		NilAttr: m["nilattr"] == "1", FreshInfo: m["freshinfo"] == "1", ReuseHdr: m["reusehdr"] == "1", FreshAttr: m["attrs"] == "1",
+		FailRTP: parseSched(m["failrtp"]), FailRTCP: parseSched(m["failrtcp"]), Shapes: split(m["shapes"])}
 }
 
 func ambNeighbour(kind string) interceptor.Interceptor {
@@ -117,6 +177,9 @@ func (o *Out) Wrap(ic interceptor.Interceptor) interceptor.Interceptor {
 // Attrs is the Attributes value the caller passes to the next Read/Write: one reused map with `reuse=1`
 // (whatever earlier calls cached in it is still there), otherwise what the component would have passed.
 func (o *Out) Attrs(dflt interceptor.Attributes) interceptor.Attributes {
+	if o != nil && o.Amb != nil && o.Amb.FreshAttr && !o.Amb.Reuse && dflt == nil {
+		return interceptor.Attributes{}
+	}
 	if o == nil || o.Amb == nil || !o.Amb.Reuse {
 		return dflt
 	}
@@ -195,6 +258,78 @@ func (o *Out) Bottom(a interceptor.Attributes) interceptor.Attributes {
 	return a
 }
 
+// RTPWriteErr is called by the component's bottom RTP writer once per call: the error this call returns (the
+// component records / prints the attempted write as usual).
+func (o *Out) RTPWriteErr() error {
+	if o == nil || o.Amb == nil {
+		return nil
+	}
+	if o.Amb.FailRTP.hit(atomic.AddInt64(&o.Amb.nRTP, 1)) {
+		return errAmbWrite
+	}
+	return nil
+}
+
+// RTCPWriteErr: the same for the bottom RTCP writer.
+func (o *Out) RTCPWriteErr() error {
+	if o == nil || o.Amb == nil {
+		return nil
+	}
+	if o.Amb.FailRTCP.hit(atomic.AddInt64(&o.Amb.nRTCP, 1)) {
+		return errAmbWrite
+	}
+	return nil
+}
+
+// ambRTPHeaderLen is the length of the RTP header of a well-formed marshalled packet (12 + CSRCs + extension block).
+func ambRTPHeaderLen(raw []byte) int {
+	if len(raw) < 12 {
+		return -1
+	}
+	n := 12 + 4*int(raw[0]&0x0F)
+	if raw[0]&0x10 != 0 {
+		if len(raw) < n+4 {
+			return -1
+		}
+		n += 4 + 4*(int(raw[n+2])<<8|int(raw[n+3]))
+	}
+	if len(raw) < n {
+		return -1
+	}
+	return n
+}
+
+// ShapeRaw gives a marshalled, well-formed RTP packet the next wire shape of the case's schedule, in place and at
+// unchanged length: `padonly` — P bit, the padding count (last octet) is everything after the header; `pad1` — P bit,
+// count 1; `padmax` — P bit, count = payload-1; `plain` (and any packet the shape does not fit: empty payload,
+// more than 255 octets to cover) — unchanged.
+func (o *Out) ShapeRaw(raw []byte) []byte {
+	if o == nil || o.Amb == nil || len(o.Amb.Shapes) == 0 {
+		return raw
+	}
+	shape := o.Amb.Shapes[int(atomic.AddInt64(&o.Amb.nShape, 1)-1)%len(o.Amb.Shapes)]
+	h := ambRTPHeaderLen(raw)
+	if h < 0 || raw[0]&0x20 != 0 {
+		return raw
+	}
+	pl := len(raw) - h
+	count := 0
+	switch shape {
+	case "padonly":
+		count = pl
+	case "pad1":
+		count = 1
+	case "padmax":
+		count = pl - 1
+	}
+	if count < 1 || count > 255 || count > pl {
+		return raw
+	}
+	raw[0] |= 0x20
+	raw[len(raw)-1] = byte(count)
+	return raw
+}
+
 // UnbindInfo is the StreamInfo pointer handed to Unbind*: an equal copy at another address with `freshinfo=1`.
 func (o *Out) UnbindInfo(info *interceptor.StreamInfo) *interceptor.StreamInfo {
 	if o == nil || o.Amb == nil || !o.Amb.FreshInfo || info == nil {
@@ -221,4 +356,102 @@ func ambOp(before, after string, chain, reuse, nilattr, freshinfo bool) string {
 		after = "-"
 	}
 	return "amb before=" + before + " after=" + after + " chain=" + b(chain) + " reuse=" + b(reuse) + " nilattr=" + b(nilattr) + " freshinfo=" + b(freshinfo)
+}
+
+// ambWith appends further options (`attrs=1`, `failrtcp=2,3`, `shapes=…`) to an `amb` op.
+func ambWith(op string, extra ...string) string {
+	for _, e := range extra {
+		if e != "" {
+			op += " " + e
+		}
+	}
+	return op
+}
+
+// ambShapes draws a `shapes=` schedule: 1..6 entries, padding-only packets in most of them.
+func ambShapes(r *Rng) string {
+	all := []string{"padonly", "padonly", "pad1", "padmax", "plain"}
+	n := r.Range(1, 6)
+	xs := make([]string, n)
+	for i := range xs {
+		xs[i] = all[r.Intn(len(all))]
+	}
+	return "shapes=" + strings.Join(xs, ",")
+}
+
+// Two peer connections: a registry builds one interceptor per PeerConnection from ONE factory.  An op written as
+//
+//	twin <op>
+//
+// is addressed to a second interceptor built from the same factory as the one under test.  The Lean side
+// (Driver/Util.lean, runLines) runs it on a second, independent instance of the same model and prefixes its output
+// with `twin `: whatever the twin sends or reads, the first instance prints what it would have printed alone.
+
+// twinOp splits the `twin ` prefix off an op: who = 1 for the twin, 0 for the interceptor under test.
+func twinOp(op string) (rest string, who int) {
+	if strings.HasPrefix(op, "twin ") {
+		return strings.TrimSpace(op[len("twin "):]), 1
+	}
+	return op, 0
+}
+
+// PW prints an output line of instance `who` (the twin's lines carry the prefix `twin `).
+func (o *Out) PW(who int, format string, a ...any) {
+	if who == 1 {
+		o.P("twin "+format, a...)
+		return
+	}
+	o.P(format, a...)
+}
+
+// twinInterleave merges the op lists of two independently generated cases into one case: the first list
+// unchanged and in order, the second in order with every op addressed to the twin; runs of 1..maxRun ops alternate.
+func twinInterleave(r *Rng, a, b []string, maxRun int) []string {
+	out := make([]string, 0, len(a)+len(b))
+	for len(a) > 0 || len(b) > 0 {
+		for k := r.Range(1, maxRun); k > 0 && len(a) > 0; k-- {
+			out = append(out, a[0])
+			a = a[1:]
+		}
+		for k := r.Range(1, maxRun); k > 0 && len(b) > 0; k-- {
+			out = append(out, "twin "+b[0])
+			b = b[1:]
+		}
+	}
+	return out
+}
+
+// infoGuard remembers a deep copy of a caller's StreamInfo; Check reports whether the interceptor edited it
+// (the StreamInfo handed to Bind*Stream stays the caller's: the same value is handed to every interceptor of
+// the chain and to the matching Unbind).
+type infoGuard struct {
+	p    *interceptor.StreamInfo
+	copy interceptor.StreamInfo
+}
+
+func guardInfo(info *interceptor.StreamInfo) infoGuard {
+	c := *info
+	if info.RTPHeaderExtensions != nil { // keep nil and empty apart: reflect.DeepEqual does
+		c.RTPHeaderExtensions = make([]interceptor.RTPHeaderExtension, len(info.RTPHeaderExtensions))
+		copy(c.RTPHeaderExtensions, info.RTPHeaderExtensions)
+	}
+	if info.RTCPFeedback != nil {
+		c.RTCPFeedback = make([]interceptor.RTCPFeedback, len(info.RTCPFeedback))
+		copy(c.RTCPFeedback, info.RTCPFeedback)
+	}
+	if info.Attributes != nil {
+		c.Attributes = interceptor.Attributes{}
+		for k, v := range info.Attributes {
+			c.Attributes[k] = v
+		}
+	}
+	return infoGuard{p: info, copy: c}
+}
+
+// Check returns "" when the StreamInfo is unchanged, otherwise a description for a STREAMINFO-EDITED line.
+func (g infoGuard) Check() string {
+	if reflect.DeepEqual(*g.p, g.copy) {
+		return ""
+	}
+	return fmt.Sprintf("before=%+v after=%+v", g.copy, *g.p)
 }
